@@ -3,6 +3,13 @@
 import json, subprocess
 ALL=[f"C{i:02d}" for i in range(1,21)]
 CHECKS={
+ "C07":("exploration","differential + trace monitor of the real ow-sim binary (child process, HDF5 shim): random model graphs x output-selection flags x seeded delays at verif hook points; output datasets vs a sequential reference executor (bit-exact), shim op log (each generation block written exactly once), hook trace checked against the writer-protocol ordering rules (write once, in order, before exit; purge only after write and links; no re-initialisation after purge); stdout/stderr to files so that a parent exiting before its -writer child is visible",
+        "Held on the executed graphs and observed interleavings (interleaving hashes and writer-behind cases counted in the evidence), except for the listed split-output finding.","HDF5 shim (trusted base); valid graph files; watchdog expiry = inconclusive","3 C07"),
+ "C08":("exploration","reference-model monitors of the real io package on the HDF5 shim (round trips for 8 types x view kinds, numpy-style selections, block placement read back through the shim tree, Create idempotence), exhaustive enumeration of sliceSize/makeHyperslab on a box, lock-discipline monitor (every shim library call probes the package RWMutex via a verif hook), linearizability checking of concurrent WriteSlice/Write/Load histories with porcupine, and the same workload under the race detector with the shim's unsynchronised canary word",
+        "Held on the executed cases; 2+ million probed library calls and thousands of linearizable histories in the thorough tier; int/uint element types are a listed finding.","HDF5 shim (trusted base) models the gonum binding and the HDF5 manual","3 C08"),
+ "C17":("exploration","differential + robustness monitor: valid requests answered by the real ow-single binary (child process) and the in-process runner vs a direct one-cell Run (bit-exact, log contents), generated hostile request classes (random bytes, truncations, wrong types, unknown/empty model, missing/unequal/empty inputs, extra/duplicate keys, deep nesting) checked for exit status 0 and exactly one JSON document naming the problem; JsonSafeArray/JsonSafeValue on random arrays and views for every shiftDim",
+        "Held on the executed requests except for the listed findings (table-parameter models; three omitted parameters whose spec default is outside the kernel's domain).","numeric values inside model domains; runner ignores supplied states","3 C17"),
+
  "C10":("exploration","invariant monitors on step-by-step chained runs (stores observed after every step) and whole runs of the five rainfall-runoff models: finiteness, sign, store bounds, component sums, cumulative no-creation inequality, exact GR4J closure for x2=0/PET=0",
         "Held on every observed step/run of the executed parameter sets and series.","initial storage upper bound; GR4J positive exchange recomputed by the oracle","3 C10"),
  "C12":("exploration","conservation monitor on step-by-step chained runs of the eight constituent models: per-step mass balance with every term in the model's documented units, flush permission only below MINIMUM_VOLUME, sign and finiteness monitors, branch coverage tags (required to be observed)",
